@@ -139,6 +139,9 @@ fn cfg_from(args: &Args) -> GenCfg {
     if let Some(v) = args.kv.get("plant") {
         cfg.plant_pct = v.parse().unwrap();
     }
+    if let Some(v) = args.kv.get("viewpct") {
+        cfg.view_pct = v.parse().unwrap();
+    }
     if let Some(v) = args.kv.get("sympct") {
         cfg.sym_pct = v.parse().unwrap();
     }
@@ -165,7 +168,8 @@ fn mode_answers(args: &Args) {
         let setup = Setup::random(&mut r);
         let scen = pick_mix(&mut r, &mix);
         let id = format!("{}-{}", args.seed, i);
-        let desc = format!("scen={} seed={} {}", scen, case_seed, setup.describe());
+        let wide = wide_case(args, &mut r);
+        let desc = format!("scen={} seed={} {}{}", scen, case_seed, setup.describe(), if wide { " wide=1" } else { "" });
         run_case(&id, &desc, |out| {
             kinds_meta(&m, out);
             match scen.as_str() {
@@ -203,11 +207,21 @@ fn mode_bounds(args: &Args) {
         let m = gen_model(&mut r, &cfg);
         let setup = Setup::random(&mut r);
         let id = format!("{}-{}", args.seed, i);
-        run_case(&id, &format!("scen=bounds seed={} {}", case_seed, setup.describe()), |out| {
+        let wide = wide_case(args, &mut r);
+        run_case(&id, &format!("scen=bounds seed={} {}{}", case_seed, setup.describe(), if wide { " wide=1" } else { "" }), |out| {
             kinds_meta(&m, out);
             scen_bounds(&m, &setup, &mut r, out)
         });
     }
+}
+
+/// `--wide P`: with probability P% the case declares its interval variables widely (see
+/// `config::WIDE_DECL`); `--wide 100` (as in `one --wide 100`) forces it.
+fn wide_case(args: &Args, r: &mut Rng) -> bool {
+    let pct: u64 = args.kv.get("wide").map(|s| s.parse().unwrap()).unwrap_or(0);
+    let wide = pct > 0 && r.below(100) < pct;
+    config::WIDE_DECL.store(wide, std::sync::atomic::Ordering::Relaxed);
+    wide
 }
 
 fn only_skip(args: &Args, i: usize) -> bool {
@@ -499,6 +513,9 @@ fn mode_one(args: &Args) {
     };
     let scen = args.kv.get("scen").cloned().unwrap_or_else(|| "satisfy".to_string());
     let id = args.kv.get("id").cloned().unwrap_or_else(|| "one".to_string());
+    if args.kv.get("wide").map(|s| s != "0").unwrap_or(false) {
+        config::WIDE_DECL.store(true, std::sync::atomic::Ordering::Relaxed);
+    }
     let desc = format!("scen={} {}", scen, setup.describe());
     run_case(&id, &desc, |out| {
         kinds_meta(&m, out);
